@@ -223,6 +223,27 @@ static void *stressThread(void *p)
 	return NULL;
 }
 
+// ---- churn mode: thrdrv <lib> churn <threads> <iterations>
+// half of the threads create and destroy session objects of their own, the other half search and read labels; the answers
+// are not judged (objects come and go), the process must survive and finish
+static void *churnThread(void *p)
+{
+	StressArg *a = (StressArg *)p;
+	CK_SESSION_HANDLE s = openS();
+	for (long i = 0; i < a->iters; i++) {
+		if (a->id % 2 == 0) {
+			char lab[32]; snprintf(lab, sizeof lab, "c%d_%ld", a->id, i);
+			CK_OBJECT_HANDLE h = mkObj(s, lab, false, (i % 3) == 0, "churn");
+			if (h) { labelOf(s, h); F->C_DestroyObject(s, h); }
+		} else {
+			CK_RV rv; std::map<std::string, std::vector<CK_OBJECT_HANDLE> > m;
+			findAll(s, &rv, &m);
+		}
+		a->calls++;
+	}
+	return NULL;
+}
+
 static Ctx C;
 static Scenario *S;
 static Res RA, RB;
@@ -240,7 +261,8 @@ int main(int argc, char **argv)
 	S = NULL;
 	for (size_t i = 0; i < sizeof SC / sizeof SC[0]; i++) if (!strcmp(SC[i].name, argv[2])) S = &SC[i];
 	bool stressos = !strcmp(argv[2], "stressos");      // same, but with CKF_OS_LOCKING_OK after an unlocked C_Initialize(NULL) / C_Finalize cycle
-	bool stress = !strcmp(argv[2], "stress") || stressos;
+	bool churn = !strcmp(argv[2], "churn");
+	bool stress = !strcmp(argv[2], "stress") || stressos || churn;
 	if (stress) S = &SC[0];
 	if (!S) { printf("unknown-scenario\n"); return 2; }
 	long k = atol(argv[3]);
@@ -282,6 +304,18 @@ int main(int argc, char **argv)
 		findAll(C.sa, &rv, &m);
 		C.x = m["X"].empty() ? 0 : m["X"][0]; C.y = m["Y"].empty() ? 0 : m["Y"][0];
 		C.p1 = m["P1"].empty() ? 0 : m["P1"][0]; C.p2 = m["P2"].empty() ? 0 : m["P2"][0]; C.key = m["K"].empty() ? 0 : m["K"][0];
+	}
+	if (churn) {
+		int nt = (int)k; long iters = argc > 4 ? atol(argv[4]) : 200;
+		std::vector<pthread_t> th(nt); std::vector<StressArg> args(nt);
+		for (int i = 0; i < nt; i++) { args[i].id = i; args[i].iters = iters; args[i].calls = 0; }
+		for (int i = 0; i < nt; i++) pthread_create(&th[i], NULL, churnThread, &args[i]);
+		for (int i = 0; i < nt; i++) pthread_join(th[i], NULL);
+		long calls = 0;
+		for (int i = 0; i < nt; i++) calls += args[i].calls;
+		printf("stress ok calls=%ld\n", calls);
+		fflush(stdout);
+		_exit(0);
 	}
 	if (stress) {
 		// a private token AES key for the encryptions
